@@ -209,6 +209,8 @@ def run(v, tier):
     cases = verify_cases(small + [(g, [], []) for g, _, _ in small[:3]] + [([], [], [12, 27]), ([], [], [12]), ([2, 0, 30], [], [29, 0, 27])], with_binary=True)
     muts = []
     for g, c, p in small:
+        if len(g) + len(c) + len(p) > 6000:
+            continue          # the large translated proofs are verified unmutated only
         nm = 6 if quick else 60
         for m in mutations(rng, p, nm):
             muts.append((g, c, m))
